@@ -1410,6 +1410,8 @@ asn1c_lang_C_type_SIMPLE_TYPE(arg_t *arg) {
 		INDENT(-1);
 		OUT("}\n");
 		OUT("\n");
+	} else if(arg->flags & A1C_NO_CONSTRAINTS) {
+		asn1c_emit_PER_character_map_tables(arg);
 	}
 
 	REDIR(OT_STAT_DEFS);
@@ -2987,6 +2989,10 @@ emit_member_table(arg_t *arg, asn1p_expr_t *expr, asn1c_ioc_table_and_objset_t *
 		INDENT(-1);
 		OUT("}\n");
 		OUT("\n");
+	} else {
+		tmp_arg = *arg;
+		tmp_arg.expr = expr;
+		asn1c_emit_PER_character_map_tables(&tmp_arg);
 	}
 
 	if(emit_member_OER_constraints(arg, expr, "memb"))
